@@ -3,6 +3,8 @@
 
 def line_of(op):
     o = op["op"]
+    if "line" in op:
+        return op["line"]
     if o == "auth":
         return "auth %s %s" % (op["u"], op["tok"])
     if o == "use-db":
